@@ -101,3 +101,30 @@ Section Race.
 End Race.
 
 Arguments Test {V}. Arguments Compute {V}. Arguments Store {V}. Arguments Done {V}.
+
+(* ---- a process as a state machine (the shape the history check tests) ----
+   [S]: the whole state of the process -- the immutable fields of every object AND everything else
+   (caches, class attributes, module-level configuration objects).  [Op]: a call with its arguments.
+   [step s o] = (state after the call, result).  A history is a list of calls; [exec] is the fold of
+   [step] over it; [result_at s h o] is what call [o] returns when issued after history [h].
+   [result_at s [] o] is the value "first thing in a fresh process". *)
+Section Machine.
+  Variable S Op R : Type.
+  Variable step : S -> Op -> S * R.
+
+  Definition exec (s : S) (h : list Op) : S := fold_left (fun s o => fst (step s o)) h s.
+  Definition result_at (s : S) (h : list Op) (o : Op) : R := snd (step (exec s h) o).
+  (* every result of a history, in order (what a worker reports) *)
+  Fixpoint results (s : S) (h : list Op) : list R :=
+    match h with [] => [] | o :: t => snd (step s o) :: results (fst (step s o)) t end.
+End Machine.
+
+(* the memo model above is such a machine: operations [op], results [option V] *)
+Definition memo_exec (F : Type) (feqb : F -> F -> bool) (M : Type) (meqb : M -> M -> bool) (V : Type)
+    (sem : M -> (F -> V) -> V) (is_cached : M -> bool) :=
+  exec (state F M V) (op F M V) (option V) (step F feqb M meqb V sem is_cached).
+
+(* a two-operation machine with hidden state, used as the satisfiability / refutation witness:
+   state = (immutable field, hidden "last argument seen"); [leaky] returns the hidden part too *)
+Definition clean_step (s : nat * nat) (o : nat) : (nat * nat) * nat := ((fst s, o), fst s + o).
+Definition leaky_step (s : nat * nat) (o : nat) : (nat * nat) * nat := ((fst s, o), fst s + o + snd s).
